@@ -578,12 +578,20 @@ class t2listing(object):
             self.skip_to_nonblank()
             tname = 'element'
             nelt_tables = 0
-        else: tname = last_tablename
+        else:
+            tname = last_tablename
+            # number of additional element tables passed so far:
+            tables = [t for t in ['element', 'element1', 'connection',
+                                  'primary', 'element2', 'generation']
+                      if t in self._table]
+            nelt_tables = len([t for t in tables[:tables.index(tname) + 1]
+                               if t.startswith('element')]) - 1
         while tname != tablename:
             if tname == 'primary': keyword='_____'
             else: keyword = '@@@@@'
             self.skipto(keyword,0)
             tname = self.next_table_TOUGHplus()
+            if tname is None: break # table not found
             if tname == 'element':
                 nelt_tables += 1
                 tname += str(nelt_tables)
